@@ -87,6 +87,7 @@ class Gen:
         self.cur_part = "document"
         self.rid_counter = 0
         self.rid_by_part: dict[str, int] = {}
+        self.reserved: dict[str, set] = {}
         self.comment_ids: list[str] = []
         self.note_refs: dict[str, list[str]] = {"footnote": [], "endnote": []}
         self.images: dict[str, bytes] = {}
@@ -131,7 +132,15 @@ class Gen:
         # relationship ids are unique per part only: every part starts again at rId1, so
         # the same id means different things in different parts
         n = self.rid_by_part.get(self.cur_part, 0) + 1
+        while n in self.reserved.get(self.cur_part, ()):
+            n += 1  # an id used as a dangling reference in this part stays undefined here
         self.rid_by_part[self.cur_part] = n
+        return f"rId{n}"
+
+    def dangling_doc_id(self) -> str:
+        """an id this part never defines, but the main document's relationships usually do"""
+        n = self.rid_by_part.get(self.cur_part, 0) + self.r.randint(1, 2)
+        self.reserved.setdefault(self.cur_part, set()).add(n)
         return f"rId{n}"
 
     def add_rel(self, type_: str, target: str, external=False) -> str:
@@ -279,6 +288,8 @@ class Gen:
             blip_attrs["r:embed"] = self.add_rel("image", f"media/{name}")
         elif kind < 0.85:
             blip_attrs["r:embed"] = "rId999"  # dangling
+            if self.cur_part != "document" and self.p(0.6):
+                blip_attrs["r:embed"] = self.dangling_doc_id()
             self.feat("image_dangling")
         else:
             blip_attrs["r:link"] = self.add_rel("image", "http://example.com/x.png", True)
@@ -389,7 +400,12 @@ class Gen:
         else:
             attrs["w:tooltip"] = "tip"
         if self.p(self.k.link_dangling):
+            # an id this part does not define; outside the main document it is often one that
+            # the main document's relationships DO define (ids are per part)
             attrs["r:id"] = "rId777"
+            if self.cur_part != "document" and self.p(0.7):
+                attrs["r:id"] = self.dangling_doc_id()
+                self.feat("link_dangling_doc_id")
             self.feat("link_dangling")
         if self.p(0.3):
             attrs["w:history"] = "1"
@@ -445,6 +461,12 @@ class Gen:
         if not kids and self.p(0.5):
             return None, False
         self.r.shuffle(kids)
+        if self.p(0.12):
+            # tracked change of the paragraph properties: the OLD properties (with their own
+            # pStyle) are recorded inside w:pPrChange, last child of w:pPr
+            self.feat("ppr_change")
+            kids.append(self.E("w:pPrChange", {"w:id": "11", "w:author": "a"},
+                               self.E("w:pPr", {}, self.E("w:pStyle", {"w:val": self.r.choice(["Heading1", "Old"])}))))
         pr = self.E("w:pPr", {}, *kids)
         if self.p(self.k.xml_comment_in_props):
             self.feat("xml_comment_in_props")
@@ -707,7 +729,11 @@ class Gen:
     def comments_part(self):
         self.cur_part = "comments"
         root = etree.Element(self.q("w", "comments"), nsmap=dict(self.ns))
-        for cid in self.comment_ids:
+        ids = list(self.comment_ids)
+        if len(ids) > 1 and self.p(0.4):
+            self.r.shuffle(ids)
+            self.feat("comments_shuffled")
+        for cid in ids:
             attrs = {"w:id": cid, "w:author": self.r.choice(["Ann", "B & C", ""]), "w:initials": "A"}
             if self.p(0.7):
                 attrs["w:date"] = "2024-01-02T03:04:05Z"
@@ -817,9 +843,16 @@ def gen_package(rng: random.Random, knobs: Knobs | None = None, ns=None) -> Pkg:
         g.cur_part = "document"
         return g.new_rid()
     part_rels: dict[str, str] = {}
+    odd_names = g.p(0.3)
+    pools = {"header": ["aHeader.xml", "zzHeader.xml", "evenHeader.xml"],
+             "footer": ["footer1.xml", "mFooter.xml", "bFooter.xml"]}
     for kind, tag in (("header", "hdr"), ("footer", "ftr")):
         for i in range(g.r.choice([0, 0, 1, 2])):
             name = f"{kind}{i + 1}.xml"
+            if odd_names:
+                # names whose path order interleaves headers and footers
+                name = pools[kind][i]
+                g.feat("odd_part_names")
             pkg.parts[f"word/{name}"] = g.body_part(name, tag)
             doc_rels.append((doc_rid(), REL_T + kind, name, False))
             part_rels[name] = f"word/_rels/{name}.rels"
